@@ -372,6 +372,10 @@ impl MetadataMap {
     pub fn insert(&mut self, key: &'static str, val: MetadataValue) -> (r: Option<MetadataValue>)
         ensures final(self).headers@ == old(self).headers@.insert(key@, seq![val.inner@])
     { unimplemented!() }
+    #[verifier::external_body]
+    pub fn append(&mut self, key: &'static str, val: MetadataValue) -> (r: bool)
+        ensures final(self).headers@ == hmap_append(old(self).headers@, key@, val.inner@)
+    { unimplemented!() }
 }
 pub use crate::httpmsg::Extensions;
 pub mod metadata { pub use crate::GRPC_TIMEOUT_HEADER; }
